@@ -115,6 +115,19 @@ WriteRef(r, g, k, v) ==
 (*   (generator) constructor          cm  node of a user multi-constructor *)
 (*   pt  node whose tag a user PATH resolver supplies (first child, key pk)*)
 (*   ir  plain scalar that a user IMPLICIT resolver types                  *)
+(* python objects (unsafe classes) and YAMLObject subclasses (registered    *)
+(* with the user classes) - objects are built in two steps: the instance    *)
+(* first, its state when the document's generators are drained:             *)
+(*   po  !!python/object of an ordinary class, state = a mapping            *)
+(*   sl  !!python/object of a class with __slots__ and no __dict__, state   *)
+(*       written as a plain mapping (not the (dict, slotstate) pair)        *)
+(*   ps  !!python/object of a class with __setstate__ whose state holds the *)
+(*       alias *a directly: a deep=True construction that meets a node of   *)
+(*       constructed_objects      ys  the same as a YAMLObject subclass     *)
+(*   pn  !!python/object/new whose argument list holds the alias *a         *)
+(*   pk  a mapping whose KEY is a !!python/object with __hash__ / __eq__    *)
+(*       over its state (hashed when put into the mapping: complete or      *)
+(*       still empty)             yk  the same with a YAMLObject subclass   *)
 (***************************************************************************)
 Doc(n) ==
   CASE n = "plain"    -> [yaml |-> FALSE, tag |-> FALSE, items |-> <<"s", "s">>]
@@ -135,9 +148,25 @@ Doc(n) ==
     [] n = "ugen"     -> [yaml |-> FALSE, tag |-> FALSE, items |-> <<"cg", "cu">>]
     [] n = "umulti"   -> [yaml |-> FALSE, tag |-> FALSE, items |-> <<"s", "cm">>]
     [] n = "paths"    -> [yaml |-> FALSE, tag |-> FALSE, items |-> <<"pt", "ir", "s">>]
+    [] n = "pyplain"  -> [yaml |-> FALSE, tag |-> FALSE, items |-> <<"po", "s">>]
+    [] n = "slots"    -> [yaml |-> FALSE, tag |-> FALSE, items |-> <<"sl">>]
+    [] n = "deepalias" -> [yaml |-> FALSE, tag |-> FALSE, items |-> <<"da", "ps">>]
+    [] n = "newalias" -> [yaml |-> FALSE, tag |-> FALSE, items |-> <<"da", "pn">>]
+    [] n = "keyed"    -> [yaml |-> FALSE, tag |-> FALSE, items |-> <<"pk">>]
+    [] n = "ydeep"    -> [yaml |-> FALSE, tag |-> FALSE, items |-> <<"da", "ys">>]
+    [] n = "ykeyed"   -> [yaml |-> FALSE, tag |-> FALSE, items |-> <<"s", "yk">>]
 AllDocs == {"plain", "scanerr", "parseerr", "comperr", "ctorerr", "yamldir", "tagdir", "usetag", "stdtag", "anchors",
-            "usealias", "rec", "pyobj", "deepfail", "ucall", "ugen", "umulti", "paths"}
+            "usealias", "rec", "pyobj", "deepfail", "ucall", "ugen", "umulti", "paths",
+            "pyplain", "slots", "deepalias", "newalias", "keyed", "ydeep", "ykeyed"}
 UserItems == {"cu", "cg", "cm"}
+PyItems == {"po", "sl", "ps", "pn", "pk"}        \* constructible by the unsafe classes only
+YObjItems == {"ys", "yk"}                        \* YAMLObject subclasses whose yaml_loader is the user classes
+AliasUsers == {"ps", "pn", "ys"}                 \* their text contains *a
+DeepAliasItems == {"ps", "ys"}                   \* second step: construct_mapping(node, deep=True) over {items: *a}
+KeyItems == {"pk", "yk"}
+\* every two-step object item occurs at most once in a document (PosOf)
+ASSUME \A n \in AllDocs : \A i, j \in DOMAIN Doc(n).items :
+          (Doc(n).items[i] = Doc(n).items[j] /\ Doc(n).items[i] \in PyItems \cup YObjItems) => i = j
 
 (***************************************************************************)
 (* A value is a list of items.                                             *)
@@ -228,7 +257,7 @@ ImplicitDocumentStart(o, g) ==
                          ELSE OwnRef(g.DEFAULT_TAGS @@ o.th.own)],     \* libyaml keeps its own table
    g |-> g, ev |-> <<"DOCSTART", "none", {}>>]
 
-HandleOf(it) == CASE it = "te" -> "e" [] it \in {"tb", "py", "dk"} -> "!!" [] it \in UserItems -> "!" [] OTHER -> "-"
+HandleOf(it) == CASE it = "te" -> "e" [] it \in {"tb", "py", "dk"} \cup PyItems -> "!!" [] it \in UserItems \cup YObjItems -> "!" [] OTHER -> "-"
 
 \* what the constructor of class cls makes of a node
 CtorOutcome(cls, it) ==
@@ -239,8 +268,42 @@ CtorOutcome(cls, it) ==
     [] it \in UserItems -> IF cls = "user" THEN "U" ELSE IF cls = "base" THEN "plain" ELSE "err"
     [] it = "pt" -> IF cls = "user" THEN "PT" ELSE "plain"
     [] it = "ir" -> IF cls = "user" THEN "IR" ELSE "plain"
+    [] it \in KeyItems /\ cls = "base" -> "err"             \* the tag is ignored, the key is a dict: "found unhashable key"
+    [] it \in PyItems -> IF cls = "unsafe" THEN "obj:" \o it ELSE IF cls = "base" THEN "plain" ELSE "err"
+    [] it \in YObjItems -> IF cls = "user" THEN "obj:" \o it ELSE IF cls = "base" THEN "plain" ELSE "err"
     [] OTHER -> "plain"
-TwoPhase(cls, it) == (it = "rec" /\ cls # "base") \/ (it = "cg" /\ cls = "user")
+Constructs(cls, it) == (it \in PyItems /\ cls = "unsafe") \/ (it \in YObjItems /\ cls = "user")
+TwoPhase(cls, it) == \/ (it = "rec" /\ cls # "base") \/ (it = "cg" /\ cls = "user")
+                     \/ (it \in {"po", "sl", "ps", "ys"} /\ Constructs(cls, it))      \* construct_python_object, construct_yaml_object
+
+(***************************************************************************)
+(* Python objects.  construct_python_object / construct_yaml_object yield  *)
+(* the bare instance and set its state in the second step;                 *)
+(* set_python_instance_state (constructor.py:630-650) starts from a NEW    *)
+(* empty slotstate dict per call, merges the mapping into it when the      *)
+(* instance has no __dict__, and setattr()s its items.  A dict that        *)
+(* outlives the call does NOT exist in the package; `other[SKey]` is the   *)
+(* place a wrong variant keeps one (a mutable default argument: one object *)
+(* per process).  Its CONTENT is state, and every later instance whose     *)
+(* state goes through this method receives its items.                      *)
+(* deep_construct: construct_object(node, deep=True) saves the flag, sets  *)
+(* it and restores it on the way out - also when the node is found in      *)
+(* constructed_objects (the early return is BEFORE the flag is touched).   *)
+(***************************************************************************)
+SKey == "FullConstructor.set_python_instance_state.slotstate"
+PosOf(o, it) == CHOOSE j \in DOMAIN o.held : o.held[j].it = it
+Leaked(g) == Has(g.other, SKey)
+\* a mapping keyed by a two-step object: in deep mode the key is complete when it is hashed, otherwise it is still empty
+KeyedOutcome(o, g, it) == "map:" \o (IF o.deep THEN "keyfull" ELSE "keyempty") \o (IF it = "pk" /\ Leaked(g) THEN "+leak" ELSE "")
+\* deep=True construction of a child that is already in constructed_objects
+DeepOverConstructed(o) == IF Mutation = "deep_sticky" THEN [o EXCEPT !.deep = TRUE] ELSE o     \* wrong: flag set before the lookup, early return
+\* the rest of a two-step constructor's generator body, for the object at position PosOf(o, it) of the document
+SecondPhase(o, g, it) ==
+  LET o1 == IF it \in DeepAliasItems THEN DeepOverConstructed(o) ELSE o
+      j  == PosOf(o, it)
+      o2 == IF it = "po" /\ Leaked(g) THEN [o1 EXCEPT !.constructed[j] = @ \o "+leak"] ELSE o1     \* setattr of foreign items
+      g2 == IF it = "sl" /\ Mutation = "shared_slotstate" THEN [g EXCEPT !.other = Put(@, SKey, "x,y")] ELSE g   \* wrong: slotstate.update(state) on the shared dict
+  IN  [o |-> o2, g |-> g2]
 IsCallback(cls, it) == cls = "user" /\ it \in UserItems
 
 \* is the next step of o an invocation of something the caller supplied (the points where the environment may fail)?
@@ -311,7 +374,7 @@ LStepCore(o, g, inj) ==
                ELSE \* Composer.compose_node (composer.py:63-85)
                  IF it = "da" /\ "a" \in o.anchors THEN same(Raise(o1, "ComposerError"))       \* duplicate anchor
                  ELSE IF it = "rec" /\ "r" \in o.anchors THEN same(Raise(o1, "ComposerError"))
-                 ELSE IF it = "ua" /\ "a" \notin o.anchors THEN same(Raise(o1, "ComposerError"))  \* undefined alias
+                 ELSE IF it \in {"ua"} \cup AliasUsers /\ "a" \notin o.anchors THEN same(Raise(o1, "ComposerError"))  \* undefined alias
                  ELSE IF it = "ub" /\ "b" \notin o.anchors THEN same(Raise(o1, "ComposerError"))
                  ELSE same([o1 EXCEPT !.anchors = @ \cup (IF it = "da" THEN {"a"} ELSE IF it = "rec" THEN {"r"} ELSE {}),
                                       !.nodes = Append(@, [it |-> it, tag |-> tag])])
@@ -333,14 +396,21 @@ LStepCore(o, g, inj) ==
                ELSE LET o2 == IF IsCallback(o.cls, n.it) THEN [o1 EXCEPT !.ninv = @ + 1] ELSE o1
                     IN  IF n.it = "dk" /\ oc = "err" THEN same(Raise([o2 EXCEPT !.deep = TRUE, !.recursive = @ \cup {o.k + 1}], "ConstructorError"))
                         ELSE IF oc = "err" THEN same(Raise([o2 EXCEPT !.recursive = @ \cup {o.k + 1}], "ConstructorError"))
+                        ELSE IF n.it \in KeyItems THEN same([o2 EXCEPT !.constructed = Append(@, KeyedOutcome(o, g, n.it))])
+                        ELSE IF n.it = "pn" /\ Constructs(o.cls, n.it)        \* construct_sequence(node, deep=True) over [*a]
+                             THEN same(DeepOverConstructed([o2 EXCEPT !.constructed = Append(@, oc)]))
+                        ELSE IF TwoPhase(o.cls, n.it) /\ o.deep               \* constructor.py:97-101: in deep mode the generator is run at once
+                             THEN LET r == SecondPhase([o2 EXCEPT !.constructed = Append(@, oc)], g, n.it)
+                                  IN  [o |-> [r.o EXCEPT !.ninv = IF n.it = "cg" THEN @ + 1 ELSE @], g |-> r.g]
                         ELSE same([o2 EXCEPT !.constructed = Append(@, oc),
                                              !.sgens = IF TwoPhase(o.cls, n.it) THEN Append(@, n.it) ELSE @])
     [] o.pc = "drain" ->          \* construct_document: run the queued generators (constructor.py:56-61)
          IF o.sgens = <<>> THEN same([o EXCEPT !.pc = "creset"])
          ELSE IF Head(o.sgens) = "cg" /\ inj THEN same(Raise([o EXCEPT !.injected = IF o.injected = 0 THEN o.ninv + 1 ELSE o.injected, !.ninj = o.ninj + 1, !.ninv = o.ninv + 1, !.sgens = Tail(@)], "INJ"))
-         ELSE same([o EXCEPT !.sgens = Tail(@), !.ninv = IF Head(o.sgens) = "cg" THEN @ + 1 ELSE @])
+         ELSE SecondPhase([o EXCEPT !.sgens = Tail(@), !.ninv = IF Head(o.sgens) = "cg" THEN @ + 1 ELSE @], g, Head(o.sgens))
     [] o.pc = "creset" ->         \* construct_document: the three resets (constructor.py:62-64)
-         LET o1 == [o EXCEPT !.constructed = <<>>, !.recursive = {}, !.deep = FALSE, !.held = <<>>, !.k = 0]
+         LET o1 == [o EXCEPT !.constructed = <<>>, !.recursive = {}, !.held = <<>>, !.k = 0,
+                             !.deep = IF Mutation = "deep_sticky" THEN @ ELSE FALSE]     \* wrong: "construct_object restores it itself"
          IN  IF IsSingle(o.op) THEN same([Deliver(o1, <<"OBJ", o.constructed>>) EXCEPT !.pc = "finish", !.yielded = FALSE])
              ELSE same([Deliver(o1, <<"OBJ", o.constructed>>) EXCEPT !.pc = "docstart"])
     [] o.pc = "finish" -> same([o EXCEPT !.pc = "dispose"])
